@@ -233,6 +233,10 @@ type M struct {
 	ctxType, errType types.Type
 
 	Stats    struct{ Firings, Cfgs, MaxLive int }
+	MaxTerms int             // cap on the number of terms (0 = none)
+	funcs    map[string]bool // functions entered by the interpreter in the final round
+	stubs    map[string]bool // environment models exercised
+	cfgSeen  map[string]bool // distinct (thread, control configuration) keys encoded
 	FireLog  []FireRec
 	FinalLog []FireRec // where each unfinished thread is parked after the last step
 	Trace    bool
@@ -298,6 +302,9 @@ func (m *M) reset() {
 	m.Stats.Firings, m.Stats.Cfgs, m.Stats.MaxLive = 0, 0, 0
 	m.FireLog = nil
 	m.FinalLog = nil
+	m.funcs = map[string]bool{}
+	m.stubs = map[string]bool{}
+	m.cfgSeen = map[string]bool{}
 }
 
 func (m *M) Ctx() *smt.Ctx { return m.c }
@@ -387,6 +394,7 @@ func (m *M) loopInfo(fn *ssa.Function) map[int]map[int]bool {
 func (m *M) Run(entry *ssa.Function) error {
 	t0 := m.newThread("main", "main")
 	fr := &Frame{Fn: entry, ID: "T0:" + entry.Name(), Loops: map[int]int{}}
+	m.funcs[entry.String()] = true
 	cfg := &Config{Th: t0, Frames: []*Frame{fr}, Status: stStart, G: m.c.T}
 	m.live[t0][cfg.key()] = cfg
 	for k := 0; k < m.K; k++ {
@@ -415,6 +423,9 @@ func (m *M) step(k int) (err error) {
 		}
 	}()
 	m.curStep = k
+	if m.MaxTerms > 0 && m.c.NumTerms() > m.MaxTerms {
+		return fmt.Errorf("unroller cap: %d terms exceed the limit of %d at step %d", m.c.NumTerms(), m.MaxTerms, k)
+	}
 	ck := m.c.Var(fmt.Sprintf("c_%d", k), 8)
 	m.Sched = append(m.Sched, ck)
 	var results []*result
@@ -451,6 +462,7 @@ func (m *M) step(k int) (err error) {
 		for _, key := range keys {
 			cfg := m.live[t][key]
 			nlive++
+			m.cfgSeen[key] = true
 			if cfg.Status == stDone || cfg.Status == stPanic || cfg.Status == stParked {
 				addNext(cfg, cfg.G)
 				continue
@@ -946,6 +958,27 @@ func (m *M) Reset()             { m.reset() }
 func (m *M) NumThreads() int    { return len(m.threads) }
 func (m *M) Threads() []*Thread { return m.threads }
 func (m *M) NumShared() int     { return len(m.shared) }
+func (m *M) NumStates() int     { return len(m.cfgSeen) }
+
+// FuncList returns the functions whose bodies were symbolically executed.
+func (m *M) FuncList() []string {
+	var out []string
+	for f := range m.funcs {
+		out = append(out, f)
+	}
+	sort.Strings(out)
+	return out
+}
+
+// StubList returns the environment models (intrinsics) that were exercised.
+func (m *M) StubList() []string {
+	var out []string
+	for f := range m.stubs {
+		out = append(out, f)
+	}
+	sort.Strings(out)
+	return out
+}
 func (m *M) DumpShared() {
 	for a := range m.shared {
 		ai := m.acc[a]
